@@ -18,31 +18,31 @@ claimed = {
    note="Sequentialised schedules (the client delivers outstanding answers while the runner waits in WaitGroup.Wait); OS processes, real pipes and timing are outside; delimited I/O and bufio are stubbed in the engine and real natively.",
    ref="7 (C11)"),
  "C15": dict(
-   text="Transparency and frame reassembly: tracingHTTP2Conn.Read/Write/Close return exactly the wrapped connection's (n, err) and bytes for every n, nil/error/timeout, client and server side; http2FrameTracer.trace cuts a stream of 2 frames (declared payload 0..3, case split) delivered in any 3 chunks (case split, enumerated completely) into frames: after every chunk the buffered header bytes, declared length and bytes seen equal the reference cut and one frame is emitted per complete frame; flags, stream ids and payloads symbolic.",
-   note="HPACK, http2.Framer and the attribution of frames to streams (handleFrame, GOAWAY, retry collector) are third-party or timer-driven and outside the claim; request direction (client preface) not covered.",
+   text="Transparency and frame reassembly: tracingHTTP2Conn.Read/Write/Close return exactly the wrapped connection's (n, err) and bytes for every n, nil/error/timeout, client and server side; http2FrameTracer.trace cuts a stream of 2 frames (declared payload 0..3, case split) delivered in any 3 chunks (case split, enumerated completely) into frames: after every chunk the buffered header bytes, declared length and bytes seen equal the reference cut and one frame is emitted per complete frame; flags, stream ids and payloads symbolic. Attribution: handleFrame for every well-formed sequence of <=4 decoded frames on two streams of a server-side connection (client/server HEADERS incl. trailers, RST_STREAM from either side, GOAWAY with last stream id 0/1/3/5, END_STREAM symbolic, stream with or without test name): exactly one trace per named stream that ended, was reset or was cut off, ending the way the stream did, with its own response and trailers; none for streams at or below the GOAWAY id or without a name; no panic. Retry: http2RetryCollector for every well-formed history of <=5 operations on two names - a refused attempt that is retried is not delivered, the retry is.",
+   note="HPACK and http2.Framer are third-party and outside the claim (handleFrame is driven with decoded frames); DATA frames are not driven at that level (x/net's DataFrame cannot be built outside its package; payload tracing is C14's subject); the 3 s retry timer is a stub whose firing is an operation of the harness; the client side of newBuilder (httptrace, reflection) and real goroutine interleavings of the two directions are outside; request direction of the frame cutter (client preface) not covered.",
    ref="7 (C15)"),
  "C20": dict(
    text="Wrapper-state clause for the pooled zstd decompressor: every history of 4 operations from {Reset(input 1), Reset(input 2), Read, Close}: a closed library decoder is never used again, Reset after Close yields a usable instance that decodes the new input, Read decodes the input of the last Reset, Read without input yields nothing.",
    note="The compression algorithms are third-party loops (the family's weak target): the library decoder is a contract stub in the engine and the real klauspost/zstd natively; round trips, malformed input and the other five wrappers are outside the claim.",
    ref="7 (C20)"),
  "C13": dict(
-   text="Bounded model checking of the non-JSON wire examiners: checkGRPCStatus accepts grpc-status 1..16 with grpc-message = PercentEncodeMessage(m) for every byte string m of length <=3 and flags raw non-printable bytes and dangling escapes; the field-name / field-value validators equal the RFC 7230 tables for every string of length <=2; examineGRPCEndStream never panics on any string of length <=5 over {a, A, colon, space, CR, LF} (line structure case-split, bytes symbolic), gives no feedback and the right map for a well-formed line, and flags each named malformation.",
-   note="Connect JSON examiners (encoding/json), grpc-status-details-bin (base64 + protobuf) and examineWireDetails (needs trace structures) are outside the claim; std-lib string helpers are bounded Go models.",
+   text="Bounded model checking of the non-JSON wire examiners: checkGRPCStatus accepts grpc-status 1..16 with grpc-message = PercentEncodeMessage(m) for every byte string m of length <=3 and flags raw non-printable bytes and dangling escapes; the field-name / field-value validators equal the RFC 7230 tables for every string of length <=2; examineGRPCEndStream never panics on any string of length <=5 over {a, A, colon, space, CR, LF} (line structure case-split, bytes symbolic), gives no feedback and the right map for a well-formed line, and flags each named malformation; examineWireDetails hands each part of the response to the right examiner and flags HTTP trailers exactly outside gRPC (9 content types x status x trailer x body data x end-stream x trace error).",
+   note="Connect JSON examiners (encoding/json) and grpc-status-details-bin (base64 + protobuf) are outside the claim; in the dispatch harness the four examiners are recorders (natively the real ones run on well-formed contents); std-lib string helpers are bounded Go models.",
    ref="7 (C13)"),
  "C16": dict(
    text="Bounded model checking of Tracer over atomic-step schedules: every sequence of 4 operations from {Init, Complete, Clear, Await} over two test names, where a blocked Await lets the remaining operations run (nested waiters included) and ends with its context when nothing is left; each waiter gets precisely the first trace completed for the slot it waited on (before or after the wait began), waits on cleared / never-initialised names fail, a wait never outlives its context.",
    note="Each operation is atomic under the tracer's lock (that is how the code is written); data races and interleavings inside a step need a memory-model checker and are outside the claim; the builder's exactly-once completion is not covered yet.",
    ref="7 (C16)"),
  "C17": dict(
-   text="Bounded model checking of the raw-payload encoders and the raw response writer: WriteRawStreamContents/WriteRawMessageContents (identity) write flags, big-endian explicit-or-computed length and payload per item for <=2 items with any flags 0..300, any uint32 explicit length, payload <=2 symbolic bytes, never close the destination, reject flags > 255, and are invertible; rawResponseWriter arbitration for every sequence of <=4 operations; finish() sends the given status (200 if unset), restores earlier-middleware headers, sends raw headers in order, declares and sends trailers, and exactly the given body.",
-   note="Non-identity compressions are third-party code (C20); rawRequestSender.RoundTrip (net/http, io.Pipe, goroutines, net/url) is outside the claim.",
+   text="Bounded model checking of the raw-payload encoders and the raw response writer: WriteRawStreamContents/WriteRawMessageContents (identity) write flags, big-endian explicit-or-computed length and payload per item for <=2 items with any flags 0..300, any uint32 explicit length, payload <=2 symbolic bytes, never close the destination, reject flags > 255, and are invertible; WriteRawMessageContents applies the per-item compression (8 compression values x absent/binary/message/text data x payload <=2 bytes: nothing for absent data, the compressed form - also of present-but-empty data - otherwise, an error for an unknown compression); rawResponseWriter arbitration for every sequence of <=4 operations; finish() sends the given status (200 if unset), restores earlier-middleware headers, sends raw headers in order, declares and sends trailers, and exactly the given body.",
+   note="The compression algorithms are third-party code (C20): in the engine they are a framing model (header byte, payload, trailer byte on Close), natively the real ones; rawRequestSender.RoundTrip (net/http, io.Pipe, goroutines, net/url) is outside the claim.",
    ref="7 (C17)"),
  "C18": dict(
    text="Bounded model checking of the byte kernels and the codec wiring: PercentEncodeMessage yields printable ASCII and is inverted by the reference decoder for every byte string of length <=3; header list -> gRPC metadata -> header list preserves the key up to case and the values in order with -bin values coded exactly once; StrictProtoCodec / StrictJSONCodec decode what Marshal, MarshalAppend and MarshalStable produce and reject unknown fields; test-case error -> connect.Error -> test-case error (real connect-go code executed from its SSA) preserves code, message and every detail's type URL and bytes (0..2 details, zero-length values included).",
    note="base64 and proto/protojson are inverse-pair contract stubs in the engine (real libraries natively), so the libraries' own losslessness is outside the claim; the grpc status pair (grpc-go internals) is not encoded.",
    ref="7 (C18)"),
  "C02": dict(
-   text="Crash-freedom clause (last sentence) plus the structural part of the derivation: populateExpectedResponse (unary and stream variants, real SSA) for every stream type 0..6, 0..3 request messages of any of the 4 request types or undecodable, response definition present or not, 0..3 response_data items, error present or not: no reachable panic, error-or-expectation, one payload per response item in order, request echo per stream type (full-duplex ping-pong, including more responses than requests).",
+   text="Crash-freedom clause (last sentence) plus the structural part of the derivation: populateExpectedResponse (unary and stream variants, real SSA) for every stream type 0..6, 0..3 request messages of any of the 4 request types or undecodable, response definition present or not, 0..3 response_data items, error present or not: no reachable panic, error-or-expectation, one payload per response item in order, request echo per stream type (full-duplex ping-pong, including more responses than requests); the response definition may be carried by request message 0, 1 or 2 and the expectation reflects the first message's definition only (as both reference servers do).",
    note="The agreement clause (derived expectation == what the reference peers produce) needs the whole RPC stack and is outside the claim (same reason as C01); Any (un)marshalling is a table-lookup stub in the engine and real natively; expandRequestData's crash freedom is covered by the C19 harness.",
    ref="7 (C02)"),
  "C12": dict(
@@ -62,8 +62,8 @@ claimed = {
    note="Run()/run() (`report() && err == nil`, processes, goroutines) are read off the source, not encoded; printer is a recording stub; message layout (indent) is cut.",
    ref="7 (C04)"),
  "C06": dict(
-   text="Bounded model checking of resolveFeatures, computeCasesFromFeatures and resolveCase (real SSA, nine nested range loops) against the declarative membership formula written from config.proto: for every Features message with axis lists of length <=2 (arbitrary repeated/unordered elements) and 7 tri-state flags, an arbitrary probe case (all 10 fields symbolic) is in the computed set iff the specification admits it; defaults, contradiction errors and validity of every member are asserted too; include/exclude entries (every field set or omitted) are checked one and two in sequence against symbolic features.",
-   note="parseConfig's own set-algebra loops (include/exclude over the maps) are not encoded (the map logs make the query intractable); resolveCase is checked directly instead. Only z3 5.1.0 decides the membership queries within minutes (z3 4.8.12 and cvc5 time out), so they are not cross-checked.",
+   text="Bounded model checking of resolveFeatures, computeCasesFromFeatures and resolveCase (real SSA, nine nested range loops) against the declarative membership formula written from config.proto: for every Features message with axis lists of length <=2 (arbitrary repeated/unordered elements) and 7 tri-state flags, an arbitrary probe case (all 10 fields symbolic) is in the computed set iff the specification admits it; defaults, contradiction errors and validity of every member are asserted too; include/exclude entries (every field set or omitted) are checked one and two in sequence against symbolic features; parseConfig itself (union, difference, empty-set rejection) for features with one entry per axis list, <=1 include and <=1 exclude entry, supports_tls_client_certs unset or false (case split on entry counts and the TLS tri-state).",
+   note="parseConfig with multi-valued axis lists, client certificates or several entries per list is outside the claim (measured: every query unknown at 400 s); resolveCase is checked directly for those. Only z3 5.1.0 decides the membership queries within minutes (z3 4.8.12 and cvc5 time out), so they are not cross-checked.",
    ref="7 (C06)"),
  "C10": dict(
    text="Bounded model checking of clientProcessRunner (sendRequest, consumeOutput, waitForResponses, runClient) over sequentialised schedules: <=2 sends (duplicate names, write failures) issued before, during (at every read) or after the output reader, client output of <=2 responses (known/unknown/repeated names) ending in clean EOF or an error; asserts exactly-once callbacks with the right response or an error, refusal after failure, nothing left pending, waitForResponses reporting abnormal ends, isRunning() false after the process ended.",
